@@ -4,7 +4,10 @@ from aiokafka.errors import CorruptRecordException
 # VarInt implementation
 
 cdef inline int decode_varint64(
-        char* buf, Py_ssize_t* read_pos, int64_t* out_value) except -1:
+        char* buf, Py_ssize_t buf_len, Py_ssize_t* read_pos,
+        int64_t* out_value) except -1:
+    """ Decode a varint starting at `read_pos` that must end before `buf_len`
+    """
     cdef:
         int shift = 0
         char byte
@@ -12,6 +15,9 @@ cdef inline int decode_varint64(
         uint64_t value = 0
 
     while True:
+        if pos < 0 or pos >= buf_len:
+            raise CorruptRecordException(
+                "Varint at pos {} is truncated".format(read_pos[0]))
         byte = buf[pos]
         pos += 1
         if byte & 0x80 != 0:
@@ -88,9 +94,9 @@ def decode_varint_cython(buffer, pos=0):
 
     PyObject_GetBuffer(buffer, &buf, PyBUF_SIMPLE)
     try:
-        decode_varint64(<char*>buf.buf, &read_pos, &out_value)
-    except CorruptRecordException:
-        raise ValueError("Out of double range")
+        decode_varint64(<char*>buf.buf, buf.len, &read_pos, &out_value)
+    except CorruptRecordException as err:
+        raise ValueError(err.args[0])
     finally:
         PyBuffer_Release(&buf)
     return out_value, read_pos
